@@ -151,19 +151,16 @@ func (in *Interp) writeTo(w Val, s Str) Val {
 	return in.callFunction(m, []Val{ifc.V, buf}, nil)
 }
 
-func (in *Interp) errorsIs(err, target Val) bool {
-	cur, _ := err.(Iface)
-	tgt, _ := target.(Iface)
-	for depth := 0; depth < 50; depth++ {
+// errChain walks the tree of errors below err the way errors.Is / errors.As
+// do (the error itself, then what Unwrap() error or Unwrap() []error give,
+// depth first) and stops when visit reports true.
+func (in *Interp) errChain(cur Iface, depth int, visit func(Iface) bool) bool {
+	for ; depth < 50; depth++ {
 		if cur.T == nil {
-			return tgt.T == nil && depth == 0
+			return false
 		}
-		eq := in.equal(cur, tgt)
-		if eq.IsTrue() {
+		if visit(cur) {
 			return true
-		}
-		if !eq.IsFalse() {
-			in.inconclusive("errors.Is on symbolic error values")
 		}
 		if ev, ok := cur.V.(*ErrV); ok {
 			if ev.Wrapped == nil {
@@ -172,24 +169,113 @@ func (in *Interp) errorsIs(err, target Val) bool {
 			cur = ev.Wrapped.(Iface)
 			continue
 		}
-		var m *ssa.Function
-		ms := in.w.prog.MethodSets.MethodSet(cur.T)
-		for i := 0; i < ms.Len(); i++ {
-			if sel := ms.At(i); sel.Obj().Name() == "Unwrap" {
-				m = in.w.prog.MethodValue(sel)
-			}
-		}
+		m := in.methodOf(cur.T, "Unwrap")
 		if m == nil || m.Signature.Results().Len() != 1 || m.Signature.Params().Len() != 0 {
 			return false
 		}
 		r := in.callFunction(m, []Val{cur.V}, nil)
-		next, ok := r.(Iface)
-		if !ok {
+		switch rv := r.(type) {
+		case Iface:
+			cur = rv
+		case Slice:
+			for i := 0; i < rv.Len; i++ {
+				if e, ok := rv.Obj.Cells[rv.Off+i].(Iface); ok && in.errChain(e, depth+1, visit) {
+					return true
+				}
+			}
+			return false
+		default:
 			return false
 		}
-		cur = next
 	}
 	return false
+}
+
+func (in *Interp) methodOf(t types.Type, name string) *ssa.Function {
+	ms := in.w.prog.MethodSets.MethodSet(t)
+	for i := 0; i < ms.Len(); i++ {
+		if sel := ms.At(i); sel.Obj().Name() == name {
+			return in.w.prog.MethodValue(sel)
+		}
+	}
+	return nil
+}
+
+func (in *Interp) errorsIs(err, target Val) bool {
+	cur, _ := err.(Iface)
+	tgt, _ := target.(Iface)
+	if cur.T == nil {
+		return tgt.T == nil
+	}
+	return in.errChain(cur, 0, func(e Iface) bool {
+		eq := in.equal(e, tgt)
+		if eq.IsTrue() {
+			return true
+		}
+		if !eq.IsFalse() {
+			in.inconclusive("errors.Is on symbolic error values")
+		}
+		if _, isEV := e.V.(*ErrV); isEV {
+			return false
+		}
+		// an Is(error) bool method decides as well
+		if m := in.methodOf(e.T, "Is"); m != nil && m.Signature.Params().Len() == 1 && m.Signature.Results().Len() == 1 {
+			if r, ok := in.callFunction(m, []Val{e.V, tgt}, nil).(Sc); ok {
+				if r.T != nil {
+					return in.ex.Branch(r.T)
+				}
+				return r.C == 1
+			}
+		}
+		return false
+	})
+}
+
+// errorsAs: errors.As(err, target) with target a non-nil pointer to a type
+// that implements error or to an interface type.
+func (in *Interp) errorsAs(err, target Val) bool {
+	cur, _ := err.(Iface)
+	tgt, _ := target.(Iface)
+	if tgt.T == nil {
+		in.libPanic("explicit-panic", "errors: target cannot be nil")
+	}
+	pt, ok := tgt.T.Underlying().(*types.Pointer)
+	tp, isPtr := tgt.V.(Ptr)
+	if !ok || !isPtr || tp.Slot == nil {
+		in.libPanic("explicit-panic", "errors: target must be a non-nil pointer")
+	}
+	elem := pt.Elem()
+	it, elemIsIface := elem.Underlying().(*types.Interface)
+	if cur.T == nil {
+		return false
+	}
+	return in.errChain(cur, 0, func(e Iface) bool {
+		_, isEV := e.V.(*ErrV)
+		if elemIsIface {
+			if isEV && !(it.NumMethods() == 0 || (it.NumMethods() == 1 && it.Method(0).Name() == "Error")) {
+				return false
+			}
+			if isEV || types.Implements(e.T, it) {
+				store(tp.Slot, e)
+				return true
+			}
+		} else if !isEV && types.Identical(e.T, elem) {
+			store(tp.Slot, copyVal(e.V))
+			return true
+		}
+		if isEV {
+			return false
+		}
+		if m := in.methodOf(e.T, "As"); m != nil && m.Signature.Params().Len() == 1 && m.Signature.Results().Len() == 1 {
+			if r, ok := in.callFunction(m, []Val{e.V, tgt}, nil).(Sc); ok {
+				if r.T != nil {
+					return in.ex.Branch(r.T)
+				}
+				return r.C == 1
+			}
+		}
+		return false
+	})
 }
 
 func init() {
@@ -374,10 +460,21 @@ func init() {
 		return Iface{T: in.w.errT, V: &ErrV{Msg: a[0].(Str)}}
 	}
 	intrinsics["errors.Is"] = func(in *Interp, a []Val) Val { return concBool(in.errorsIs(a[0], a[1])) }
+	intrinsics["errors.As"] = func(in *Interp, a []Val) Val { return concBool(in.errorsAs(a[0], a[1])) }
 	intrinsics["errors.Unwrap"] = func(in *Interp, a []Val) Val {
 		cur, _ := a[0].(Iface)
-		if ev, ok := cur.V.(*ErrV); ok && ev.Wrapped != nil {
-			return ev.Wrapped
+		if ev, ok := cur.V.(*ErrV); ok {
+			if ev.Wrapped != nil {
+				return ev.Wrapped
+			}
+			return Iface{}
+		}
+		if cur.T != nil {
+			if m := in.methodOf(cur.T, "Unwrap"); m != nil && m.Signature.Params().Len() == 0 && m.Signature.Results().Len() == 1 {
+				if r, ok := in.callFunction(m, []Val{cur.V}, nil).(Iface); ok {
+					return r
+				}
+			}
 		}
 		return Iface{}
 	}
